@@ -164,6 +164,59 @@ theorem no_instance_lock_nesting (T : TypeFacts) (hT : T ∈ all) (n : Nat) (m :
     nests T n false false m = false :=
   nestFree_sound T (List.all_eq_true.1 all_nest_free T hT) n m
 
+/-! ### writers are single critical sections (or sequences of point operations)
+
+  A whole-structure operation need not be atomic (`PutAll`, `ToObject` are loops of locked `Put`s), but a
+  method that *writes* the structure in a critical section of its own must not have a second critical
+  section: "snapshot under the lock, compute unlocked, write the snapshot back under the lock" undoes every
+  point operation that completed in between (what `C10.split_sort_undoes_completed_put` shows on the
+  model; the atomic form is `C10.neutral_ops_never_disturb_point_ops`). -/
+
+/-- the critical sections of `M`: its own (if it takes the lock) and those of the own methods it calls
+    while not holding it -/
+def sectionsOf (T : TypeFacts) (M : Method) : List String :=
+  (if M.acquires then [M.name] else []) ++ M.callsFree.filter (acquiresWithin T T.fuel)
+
+/-- exported methods that are not one critical section (nor a plain delegation) although one of their
+    critical sections writes the structure and is not itself an exported atomic point operation -/
+def splitWriters (T : TypeFacts) : List String :=
+  (T.methods.filter (fun M => M.exported && !atomicOrDelegates T M.name &&
+    (sectionsOf T M).any (fun c => match T.find c with
+      | some C => mutatesWithin T T.fuel c && !(C.exported && isPointOp T c && atomicOrDelegates T c)
+      | none => false))).map (·.name)
+
+/-- **writers_single_critical_section.**  In every collection type, every exported method — point operation
+    or not (Sort, PutAll, ToObject, GetTimeout …) — that writes the structure does so in one critical section
+    covering its whole body, or is a sequence of exported atomic point operations. -/
+theorem writers_single_critical_section : all.all (fun T => (splitWriters T).isEmpty) = true := by decide
+
+/-- the obligation has a subject: exported whole-structure methods that write (the `Sort`s, …) exist -/
+theorem whole_structure_writers_exist :
+    (all.flatMap (fun T => (T.methods.filter (fun M => M.exported && !isPointOp T M.name && M.acquires &&
+      mutatesWithin T T.fuel M.name)).map (fun M => T.name ++ "." ++ M.name))).length ≥ 10 := by decide
+
+/-- a method entry for hand-made example tables -/
+def exMethod (n : String) (e a lf : Bool) (held free : List String) (w : Bool) : Method :=
+  { name := n, exported := e, acquires := a, lockFirst := lf, deferUnlock := a, irregular := false,
+    callsHeld := held, callsFree := free, accHeld := [⟨"count", "count", w⟩],
+    accFree := [], fieldCallsHeld := [], fieldCallsFree := [], callbacksHeld := [], valueRecv := false,
+    rlock := false, ptrWrites := false, otherLocks := [], underOther := [], extCalls := [], paths := [] }
+
+/-- `Sort` takes its snapshot through a locking helper and locks again later for the rebuild -/
+def exSplit1 : TypeFacts :=
+  { name := "M", file := "", lockField := "lock", lockKind := "mutex", fields := ["count"],
+    methods := [exMethod "Put" true true true [] [] true, exMethod "entryArray" false true true [] [] false,
+                exMethod "Sort" true true false [] ["entryArray"] true] }
+
+/-- `Sort` = locking helper `entryArray` + locking helper `rebuild`; `PutAll` = a loop of `Put`s -/
+def exSplit2 : TypeFacts :=
+  { exSplit1 with methods := [exMethod "Put" true true true [] [] true, exMethod "entryArray" false true true [] [] false,
+                exMethod "rebuild" false true true [] [] true, exMethod "Sort" true false false [] ["entryArray", "rebuild"] false,
+                exMethod "PutAll" true false false [] ["Put"] false] }
+
+/-- … and the judgement is not vacuous: a split `Sort` is flagged in both shapes, a loop of `Put`s is not -/
+example : splitWriters exSplit1 = ["Sort"] ∧ splitWriters exSplit2 = ["Sort"] := by decide
+
 /-- what remains unlocked is confined to enumerator constructors / serializers (outside the
     property's quantifier over point operations; noted, not judged) -/
 theorem unlocked_only_outside_point_ops :
